@@ -1,4 +1,8 @@
-(** Wire entry points of property C19 (stub: replaced when the model is built). *)
+(** Wire entry points of property C19.
+
+    sub-entry 0: decode a node tree ([rd_tree]; [0] alone is Python [None]),
+    start the recording visitor on it ([Tree/Visitor.v: run_recording]) and
+    print the callback log followed by the outcome of [start]. *)
 From Coq Require Import ZArith List.
-From PLV Require Import Base.Wire.
-Definition entry (sub : Z) (inp : list Z) : list Z := bad_input.
+From PLV Require Import Base.Wire Tree.Visitor.
+Definition entry (sub : Z) (inp : list Z) : list Z := entry_visitor inp.
